@@ -207,6 +207,8 @@ def gen_plan(rng, tier):
         plan["gc"] = "disabled"      # environment: no cyclic garbage collection during the run
     elif g < 0.2:
         plan["gc"] = "every_op"      # ... or a full collection after every operation
+    if rng.random() < 0.05:
+        plan["warnings"] = "error"   # environment: warnings escalated to errors around the setters
     return plan
 
 
@@ -411,6 +413,8 @@ def _foreign_activity(backend):
 def _run(plan):
     import gc as _gc
 
+    import warnings as _warnings
+
     if plan.get("gc") == "disabled":
         _gc.disable()
     from labella.scale import LinearScale
@@ -457,6 +461,15 @@ def _run(plan):
         outcome = "ok"
         new_scale = None
         readonly = kind in ("ticks", "tickformat", "call", "invert", "foreign", "bystander")
+        wctx = None
+        if plan.get("warnings") == "error" and kind in ("domain", "range", "range_reuse", "clamp", "nice", "interp",
+                                                         "nudge", "domain_from", "range_from", "chain"):
+            # environment: warnings escalated to errors (python -W error) around the setters: a
+            # setter that warns is then a *rejected* call, after which every scale must still be
+            # consistent (I1-I5 go on as usual)
+            wctx = _warnings.catch_warnings()
+            wctx.__enter__()
+            _warnings.simplefilter("error")
         try:
             if kind == "new" and len(op) > 1 and op[1] == "args":
                 # constructor arguments instead of setters (fresh lists, never touched again)
@@ -657,7 +670,13 @@ def _run(plan):
         except HarnessError:
             raise
         except Exception as e:
-            outcome = "raise:" + type(e).__name__
+            if wctx is not None and isinstance(e, Warning):
+                outcome = "rejected_by_warning:" + type(e).__name__
+                bump("probe:setter_rejected_by_warning")
+            else:
+                outcome = "raise:" + type(e).__name__
+        if wctx is not None:
+            wctx.__exit__(None, None, None)
         if target is not None and not readonly:
             touched.add(id(target))
         if new_scale is not None:
